@@ -2,4 +2,5 @@ open Model
 let () = Driver.main [
   { Driver.name = "ks"; run = ks_run; judge = ks_judge };
   { Driver.name = "duo"; run = duo_run; judge = duo_judge };
+  { Driver.name = "rot"; run = rot_run; judge = rot_judge };
 ]
